@@ -619,7 +619,9 @@ func TestC02(t *testing.T) {
 		{"nested.ID", func(h string) interface{} {
 			return &ap.Activity{ID: id, Type: ap.CreateType, Object: &ap.Object{ID: ap.IRI(hostileIRI(h)), Type: ap.NoteType}}
 		}},
-		{"item-iri", func(h string) interface{} { return &ap.Object{ID: id, Type: ap.NoteType, AttributedTo: ap.IRI(hostileIRI(h))} }},
+		{"item-iri", func(h string) interface{} {
+			return &ap.Object{ID: id, Type: ap.NoteType, AttributedTo: ap.IRI(hostileIRI(h))}
+		}},
 		{"list-iri", func(h string) interface{} {
 			return &ap.Object{ID: id, Type: ap.NoteType, To: ap.ItemCollection{ap.IRI("https://example.com/a"), ap.IRI(hostileIRI(h))}}
 		}},
@@ -651,7 +653,9 @@ func TestC02(t *testing.T) {
 		{"Endpoints.SharedInbox", func(h string) interface{} {
 			return &ap.Actor{ID: id, Type: ap.PersonType, Endpoints: &ap.Endpoints{SharedInbox: ap.IRI(hostileIRI(h))}}
 		}},
-		{"Name.text", func(h string) interface{} { return &ap.Object{ID: id, Type: ap.NoteType, Name: ap.DefaultNaturalLanguageValue(h)} }},
+		{"Name.text", func(h string) interface{} {
+			return &ap.Object{ID: id, Type: ap.NoteType, Name: ap.DefaultNaturalLanguageValue(h)}
+		}},
 		{"Content.text-tagged", func(h string) interface{} {
 			return &ap.Object{ID: id, Type: ap.NoteType, Content: ap.NaturalLanguageValues{{Ref: "en", Value: ap.Content(h)}}}
 		}},
@@ -692,7 +696,9 @@ func TestC02(t *testing.T) {
 		}},
 		{"LangRefValue-untagged", func(h string) interface{} { return ap.LangRefValue{Ref: ap.NilLangRef, Value: ap.Content(h)} }},
 		{"LangRefValue-tagged", func(h string) interface{} { return ap.LangRefValue{Ref: "en", Value: ap.Content(h)} }},
-		{"Source", func(h string) interface{} { return ap.Source{MediaType: ap.MimeType(h), Content: ap.DefaultNaturalLanguageValue(h)} }},
+		{"Source", func(h string) interface{} {
+			return ap.Source{MediaType: ap.MimeType(h), Content: ap.DefaultNaturalLanguageValue(h)}
+		}},
 		{"PublicKey", func(h string) interface{} {
 			return ap.PublicKey{ID: ap.IRI(hostileIRI(h)), Owner: ap.IRI(hostileIRI(h)), PublicKeyPem: h}
 		}},
@@ -770,7 +776,9 @@ func TestC02(t *testing.T) {
 			{"Object.To", func(l ap.ItemCollection) interface{} { return &ap.Object{ID: id, Type: ap.NoteType, To: l} }, "to"},
 			{"Object.Audience", func(l ap.ItemCollection) interface{} { return &ap.Object{ID: id, Type: ap.NoteType, Audience: l} }, "audience"},
 			{"Object.Attachment", func(l ap.ItemCollection) interface{} { return &ap.Object{ID: id, Type: ap.NoteType, Attachment: l} }, "attachment"},
-			{"OrderedCollection.OrderedItems", func(l ap.ItemCollection) interface{} { return &ap.OrderedCollection{ID: id, Type: ap.OrderedCollectionType, OrderedItems: l} }, "orderedItems"},
+			{"OrderedCollection.OrderedItems", func(l ap.ItemCollection) interface{} {
+				return &ap.OrderedCollection{ID: id, Type: ap.OrderedCollectionType, OrderedItems: l}
+			}, "orderedItems"},
 			{"ItemCollection", func(l ap.ItemCollection) interface{} { return l }, ""},
 		}
 		total, done := 0, 0
